@@ -224,7 +224,11 @@ impl<F: Future> Stream for FuturesUnordered<F> {
             return Poll::Ready(None);
         }
 
-        for _ in 0..groups.len() {
+        // every group is visited once per call; a drained group that is discarded on the way
+        // does not count as a visit
+        let mut visits = groups.len();
+        while visits > 0 {
+            visits -= 1;
             if *poll_next >= groups.len() {
                 *poll_next = 0;
             }
@@ -235,6 +239,9 @@ impl<F: Future> Stream for FuturesUnordered<F> {
             match poll {
                 Poll::Ready(Some(x)) => {
                     *rem -= 1;
+                    // start the next call with the next group, so that a group which always
+                    // has something ready cannot starve the others
+                    *poll_next += 1;
                     return Poll::Ready(Some(x));
                 }
                 Poll::Ready(None) => {
@@ -257,6 +264,8 @@ impl<F: Future> Stream for FuturesUnordered<F> {
                         crate::verif::ev(crate::verif::kind::GROUP_REINSERT, group.shared.verif_header(), *poll_next, groups.len());
                         groups.push(group);
                         *poll_next = 0;
+                    } else {
+                        visits += 1;
                     }
                 }
                 Poll::Pending => {
